@@ -320,7 +320,7 @@ func (self *Interpreter) infixHelper(lhs ast.AnalyzedExpression, rhs ast.Analyze
 			}
 			intRes = lhsInt.Inner % rhsInt.Inner
 		case pAst.PowerInfixOperator:
-			intRes = int64(math.Pow(float64(lhsInt.Inner), float64(rhsInt.Inner)))
+			intRes = intPow(lhsInt.Inner, rhsInt.Inner)
 		case pAst.ShiftLeftInfixOperator:
 			if rhsInt.Inner < 0 {
 				return nil, nil, value.NewRuntimeErr(
@@ -711,4 +711,23 @@ func (self *Interpreter) tryExpression(node ast.AnalyzedTryExpression) (*value.V
 
 	self.addVar(node.CatchIdent.Ident(), errObj)
 	return self.block(node.CatchBlock, false)
+}
+
+// Integer power. A non-negative exponent is computed in integers: exact as long as the result fits into 64 bits
+// (a float64 only holds 53 of them) and wrapping around like `*` beyond that.
+func intPow(base int64, exponent int64) int64 {
+	if exponent < 0 {
+		return int64(math.Pow(float64(base), float64(exponent)))
+	}
+
+	result := int64(1)
+	for exponent > 0 {
+		if exponent&1 == 1 {
+			result *= base
+		}
+		base *= base
+		exponent >>= 1
+	}
+
+	return result
 }
